@@ -68,7 +68,9 @@ impl<'a> View<'a> {
             .values()
             .filter(|c| c.addr == addr && c.open_seq <= seq && c.client_close.map(|(s, _)| s > seq).unwrap_or(true))
             .map(|c| c.conn)
-            .max();
+            // the older one has the connection task; a duplicate is dropped by the client as soon
+            // as it looks at it
+            .min();
         live.or_else(|| self.conns.values().filter(|c| c.addr == addr && c.open_seq <= seq).map(|c| c.conn).max())
     }
 
